@@ -1,7 +1,7 @@
 (* C10 - Dutch auctions settle completely and sell at the posted, falling price.
    Property theorems only; each is closed by [exact] of a lemma proved in Proofs/DutchProofs*.v. *)
-From Comdex Require Import Lib.Base Lib.DecArith Model.DutchV2 Proofs.DutchProofsPrice Proofs.DutchProofsBid
-  Proofs.DutchProofsClose.
+From Comdex Require Import Lib.Base Lib.DecArith Lib.DecFacts Model.DutchV2 Proofs.DutchProofsPrice Proofs.DutchProofsBid
+  Proofs.DutchProofsClose Proofs.DutchProofsConv.
 
 (* ------------------------------------------------------------------------------------------ *)
 (* Price clauses (generation 2).  [posted_price init disc dur t] is what UpdateDutchAuction writes
@@ -72,11 +72,12 @@ Proof. vm_compute. repeat split; congruence. Qed.
 Theorem c10_totals : forall cf lk now pc pd a0 s ops,
   good_cfg cf lk -> 0 <= l_target lk -> 0 <= l_coll lk -> tick_in_ok pc ->
   activate cf lk now pc pd = Ok a0 -> Forall op_ok ops ->
-  let f := run cf lk (mkLife s (Some a0) 0 0 0 0) ops in
+  let f := run cf lk (mkLife s (Some a0) 0 0 0) ops in
   0 <= f_paid f <= l_target lk /\ 0 <= f_recv f <= l_coll lk /\
   match f_a f with
-  | Some a => f_paid f + a_debt a = l_target lk /\ f_recv f + a_coll a = l_coll lk /\ 0 <= a_debt a /\ 0 <= a_coll a
-  | None => f_paid f + f_top f + f_short f = l_target lk /\ 0 <= f_top f /\ 0 <= f_short f
+  | Some a => f_paid f + a_debt a = l_target lk /\ f_recv f + a_coll a = l_coll lk /\ 0 <= a_debt a /\ 0 <= a_coll a /\
+              f_top f = 0
+  | None => f_paid f + f_top f = l_target lk /\ 0 <= f_top f
   end.
 Proof. exact totals. Qed.
 Print Assumptions c10_totals.
@@ -86,10 +87,9 @@ Print Assumptions c10_totals.
    bid - the conversion of the advertised bonus; a partial bid never gets a bonus share (the share
    is computed with integer Quo of bid/target, which is 0).  In the collateral-exhausted branch the
    bidder receives what is left and pays the truncated conversion of (left - bonus part) back into
-   debt units.  PARTIAL: the numeric rounding bound of [conv] against the exact rational
-   (received <= floor(exact) + 1 per conversion, paid >= floor(exact) - 1) is not proved here; it is
-   evaluated on every observed bid by the extracted [holds_C10_bid]. *)
-Theorem c10_bid_price_partial : forall cf lk a s who amt0 wd twa s' a' r,
+   debt units.  (The numeric bound of these conversions against the exact rational is
+   c10_conv_bounds / c10_bid_price below.) *)
+Theorem c10_bid_amounts : forall cf lk a s who amt0 wd twa s' a' r,
   good_cfg cf lk -> good_auction cf lk a -> 0 <= twa < 9223372036854775808 ->
   place_bid cf lk a s who amt0 wd twa = Ok (s', a', r) ->
   0 <= r_paid r <= a_debt a /\ 0 <= r_recv r <= a_coll a /\
@@ -104,49 +104,121 @@ Theorem c10_bid_price_partial : forall cf lk a s who amt0 wd twa s' a' r,
                r_recv r = conv (c_dd cf) (dp_of lk twa) (a_debt a) (c_dc cf) (a_price a) + r_bonus r) /\
             (r_exh r = true -> r_recv r = a_coll a /\
                r_paid r = conv (c_dc cf) (a_price a) (a_coll a - r_bonus r) (c_dd cf) (dp_of lk twa) /\
-               r_short r = a_debt a - r_paid r /\ 0 <= r_topup r <= r_short r) /\
+               r_topup r = a_debt a - r_paid r /\ 0 <= r_topup r) /\
             r_bonus r = conv (c_dd cf) (dp_of lk twa) (a_bonus a) (c_dc cf) (a_price a)
   end.
 Proof. exact place_bid_amounts. Qed.
-Print Assumptions c10_bid_price_partial.
+Print Assumptions c10_bid_amounts.
 
-(* Close completeness, per initiator type (0 vault, 2 external, otherwise lend), outside C10-F2:
-   the closing bid takes out of the auction account exactly this auction's remaining collateral and
-   the debt it had collected (so what is attributable to the auction drops to 0; externally
-   initiated auctions keep the penalty in the account, booked as auction-module fees), principal is
-   burned / sent to the initiator / to the lending pool, the penalty goes to collector + keeper,
-   unsold collateral to the owner. *)
+(* GetAmountOfOtherToken against the exact rational amt * r1 * d2 / (d1 * r2): two roundings to
+   10^-18 and one truncation.  With Decimals d2 <= 10^18 and a rate of at least 10^-18 uusd per
+   smallest unit of the target asset (d2 <= r2): at most one unit above, less than three below. *)
+Theorem c10_conv_bounds : forall d1 r1 a d2 r2,
+  0 < d1 -> 0 <= r1 -> 0 <= a -> 0 < d2 <= P18 -> d2 <= r2 ->
+  conv d1 r1 a d2 r2 * (d1 * r2) <= a * r1 * d2 + d1 * r2 /\
+  a * r1 * d2 < (conv d1 r1 a d2 r2 + 3) * (d1 * r2).
+Proof. intros. split; [apply conv_upper | apply conv_lower]; assumption. Qed.
+Print Assumptions c10_conv_bounds.
+
+(* the price clause of the property, as the extracted predicate the runner evaluates on every
+   observed bid: never more collateral than the amount paid (+ the advertised bonus on the closing
+   bid) buys at the posted price, up to one collateral unit per conversion (two on the closing bid:
+   debt and bonus are converted separately) and three debt units in the exhausted branch *)
+Theorem c10_bid_price : forall cf lk a s who amt0 wd twa s' a' r,
+  good_cfg cf lk -> good_auction cf lk a -> 0 <= twa < 9223372036854775808 ->
+  c_dc cf <= P18 -> c_dc cf <= a_price a -> c_dd cf <= P18 -> c_dd cf <= dp_of lk twa ->
+  place_bid cf lk a s who amt0 wd twa = Ok (s', a', r) ->
+  holds_C10_bid (c_dc cf) (c_dd cf) (a_price a) (dp_of lk twa) (a_coll a) (a_debt a) (a_bonus a)
+                (r_paid r) (r_recv r) (r_closed r) = true.
+Proof. exact bid_price_holds. Qed.
+Print Assumptions c10_bid_price.
+
+(* Close completeness, per initiator type (0 vault, 2 external, otherwise lend), for EVERY closing
+   bid (no exception class any more: fixes/C10-F2 and fixes/C10-F3 repaired the two defects that
+   used to be carved out here): what the bidder pays plus what the app reserve tops up is exactly
+   the outstanding debt; the closing bid takes out of the auction account exactly this auction's
+   remaining collateral and the debt it had collected (so what is attributable to the auction drops
+   to 0; externally initiated auctions keep the penalty net of the incentive in the account, booked
+   as auction-module fees); principal is burned / sent to the initiator / to the lending pool, the
+   penalty goes to collector + keeper (vault) resp. fee book + external keeper (external), unsold
+   collateral to the owner; the reserve account pays exactly the top-up. *)
 Theorem c10_close_complete : forall cf lk a s who amt0 wd twa s' r,
   good_cfg cf lk -> good_auction cf lk a -> 0 <= twa < 9223372036854775808 -> 0 <= l_fee lk -> 0 <= who ->
-  place_bid cf lk a s who amt0 wd twa = Ok (s', None, r) -> kf_C10_2 r = false ->
+  place_bid cf lk a s who amt0 wd twa = Ok (s', None, r) ->
   r_paid r + r_topup r = a_debt a /\
   led s' AUC_C = led s AUC_C - a_coll a /\
   led s' AUC_D - xfee s' = led s AUC_D - xfee s - (l_target lk - a_debt a) /\
   led s' OWN_C + led s' (BID_C who) = led s OWN_C + led s (BID_C who) + a_coll a /\
+  led s' LIQ_D = led s LIQ_D - r_topup r /\
   (l_init lk = 0 -> led s' BRN_D = led s BRN_D + (l_target lk - l_fee lk) /\
                     led s' COL_D + led s' KEE_D = led s COL_D + led s KEE_D + l_fee lk /\ xfee s' = xfee s) /\
-  (l_init lk = 2 -> led s' INI_D = led s INI_D + (l_target lk - l_fee lk) /\ xfee s' = xfee s + l_fee lk) /\
+  (l_init lk = 2 -> led s' INI_D = led s INI_D + (l_target lk - l_fee lk) + ext_incentive cf lk /\
+                    xfee s' = xfee s + (l_fee lk - ext_incentive cf lk) /\ 0 <= ext_incentive cf lk <= l_fee lk) /\
   (l_init lk <> 0 -> l_init lk <> 2 -> led s' POOL_D = led s POOL_D + l_target lk /\ xfee s' = xfee s).
 Proof. exact close_complete. Qed.
 Print Assumptions c10_close_complete.
 
-(* C10-F2: inside the class the clause fails.  Witness = the state of harness case 92 (seed 1): the
-   reserve holds 1000, the shortfall is 440072, nothing is transferred, the reserve record becomes
-   -439072 and the auction account ends 440072 short of the fees it has booked *)
-Theorem c10_close_complete_refuted : exists s' r,
-  place_bid w_cf w_lk w_au w_s 0 27429945 false 1000000 = Ok (s', None, r) /\
-  kf_C10_2 r = true /\ r_paid r = 8703243 /\ r_short r = 440072 /\ r_topup r = 0 /\
-  rsv s' = Some (-439072) /\
-  led s' AUC_D - xfee s' = led w_s AUC_D - xfee w_s - (l_target w_lk - a_debt w_au) - 440072.
-Proof. exact reserve_refuted. Qed.
-Print Assumptions c10_close_complete_refuted.
+(* The app reserve is touched only by the collateral-exhausted close; it is debited exactly the
+   shortfall, and only when the record covers it: a successful bid never leaves a negative record.
+   Hence an exhausted close against a reserve smaller than the shortfall is not a successful bid,
+   and by [step] (a failed message's cache context is dropped) nothing changes. *)
+Theorem c10_reserve_covers_shortfall : forall cf lk a s who amt wd twa s' a' r,
+  place_bid cf lk a s who amt wd twa = Ok (s', a', r) ->
+  (r_exh r = false -> r_topup r = 0 /\ rsv s' = rsv s) /\
+  (r_exh r = true -> exists rv, rsv s = Some rv /\ rsv s' = Some (rv - r_topup r) /\ 0 <= rv - r_topup r).
+Proof. exact reserve_spec. Qed.
+Print Assumptions c10_reserve_covers_shortfall.
 
-(* C10-F3: "settles completely" fails for externally initiated auctions of an app with a positive
-   keeper incentive: no bid can ever close them (the closing branch panics on the empty address) *)
-Theorem c10_external_close_refuted : forall cf lk a s who amt0 wd twa s' r,
-  kf_C10_3 cf lk = true -> place_bid cf lk a s who amt0 wd twa <> Ok (s', None, r).
-Proof. exact external_never_closes. Qed.
-Print Assumptions c10_external_close_refuted.
+(* the reserve record stays non-negative and backed by the liquidation module's balance over every
+   successful bid (evaluated on the implementation as holds_C10_reserve) *)
+Theorem c10_reserve_backed : forall cf lk a s who amt0 wd twa s' a' r rv,
+  good_cfg cf lk -> good_auction cf lk a -> 0 <= twa < 9223372036854775808 -> 0 <= l_fee lk -> 0 <= who ->
+  place_bid cf lk a s who amt0 wd twa = Ok (s', a', r) ->
+  rsv s = Some rv -> 0 <= rv <= led s LIQ_D ->
+  exists rv', rsv s' = Some rv' /\ 0 <= rv' <= led s' LIQ_D /\ rv - rv' = led s LIQ_D - led s' LIQ_D.
+Proof. exact reserve_backed. Qed.
+Print Assumptions c10_reserve_backed.
+
+(* a partial bid moves only the bidder's and the auction account's balances, by the amounts of
+   the bid; with c10_bid_amounts: the account keeps exactly the auction's remaining collateral
+   and the debt collected so far *)
+Theorem c10_partial_bid_ledger : forall cf lk a s who amt0 wd twa s' b r,
+  good_cfg cf lk -> good_auction cf lk a -> 0 <= twa < 9223372036854775808 ->
+  place_bid cf lk a s who amt0 wd twa = Ok (s', Some b, r) ->
+  xfee s' = xfee s /\ rsv s' = rsv s /\
+  forall k, led s' k = led s k + delta k (BID_D who) AUC_D (r_paid r) + delta k AUC_C (BID_C who) (r_recv r).
+Proof. exact partial_ledger. Qed.
+Print Assumptions c10_partial_bid_ledger.
+
+(* regression, C10-F2 (fixed): the state of harness corpus case 1 - reserve 1000, shortfall 440072.
+   Before the repair the bid succeeded with nothing transferred, the reserve record went to -439072
+   and the auction account ended 440072 short of its booked fees.  Now the bid is rejected
+   (ErrorInvalidAppOrAssetData) and the life is unchanged ... *)
+Example c10_short_reserve_rejected :
+  place_bid w_cf w_lk w_au (w_s 1000) 0 27429945 false 1000000 = Err 3 /\
+  forall p rc t, step w_cf w_lk (mkLife (w_s 1000) (Some w_au) p rc t) (Bid 0 27429945 false 1000000)
+                 = mkLife (w_s 1000) (Some w_au) p rc t.
+Proof. exact reserve_short_rejected. Qed.
+
+(* ... and with a reserve that covers the shortfall the same bid closes, fully backed (non-vacuity
+   of the exhausted branch of c10_close_complete) *)
+Example c10_covered_reserve_closes :
+  exists s' r, place_bid w_cf w_lk w_au (w_s 440072) 0 27429945 false 1000000 = Ok (s', None, r) /\
+    r_exh r = true /\ r_paid r = 8703243 /\ r_topup r = 440072 /\ rsv s' = Some 0 /\ led s' LIQ_D = 0 /\
+    led s' INI_D = 8313000 /\ xfee s' = 831300 /\ led s' AUC_D = 831300 /\ led s' AUC_C = 0.
+Proof. exact reserve_covered_closes. Qed.
+
+(* regression, C10-F3 (fixed): the state of harness corpus case 0 - externally initiated auction of
+   an app with KeeeperIncentive 0.1.  Before the repair every closing bid panicked (incentive sent to
+   the empty InternalKeeperAddress); now the bid closes, the external keeper gets target - penalty
+   plus the incentive 4487, the rest of the penalty (40385) is booked and backed, nothing goes to the
+   empty address *)
+Example c10_external_closes :
+  exists s' r, place_bid x_cf x_lk x_au x_s 0 493593 false 1000000 = Ok (s', None, r) /\
+    ext_incentive x_cf x_lk = 4487 /\ r_paid r = 493592 /\ r_recv r = 329061 /\
+    led s' INI_D = 448720 + 4487 /\ xfee s' = 40385 /\ led s' AUC_D = 40385 /\ led s' AUC_C = 0 /\
+    led s' OWN_C = 238939 /\ led s' NUL_D = 0.
+Proof. exact external_closes. Qed.
 
 (* non-vacuity: a vault-initiated auction (target 1120000 = 1000000 + 12 %, internal keeper, 10 %
    incentive) takes a partial bid, a tick, and a closing bid; everything is distributed *)
@@ -155,7 +227,7 @@ Definition ex_lk : locked := mkLk 1000000 1120000 120000 0 0 true false.
 Definition ex_led : ledger := fun k => if k =? 0 then 1000000 else if k =? 11 then 5000000 else if k =? 13 then 5000000 else 0.
 Example c10_nonvacuous :
   exists a0, activate ex_cf ex_lk 0 (Some 1200000) (Some 1000000) = Ok a0 /\
-  let f := run ex_cf ex_lk (mkLife (mkS ex_led None 0) (Some a0) 0 0 0 0)
+  let f := run ex_cf ex_lk (mkLife (mkS ex_led None 0) (Some a0) 0 0 0)
                [Bid 0 400000 false 1000000; Tick 600 (Some 1200000) (Some 1000000); Bid 1 9999999 false 1000000] in
   f_a f = None /\ f_paid f = 1120000 /\ f_recv f = 804092 /\
   led (f_s f) AUC_C = 0 /\ led (f_s f) AUC_D = 0 /\ led (f_s f) BRN_D = 1000000 /\
@@ -163,24 +235,196 @@ Example c10_nonvacuous :
 Proof. eexists. split; [vm_compute; reflexivity|]. vm_compute. repeat split; reflexivity. Qed.
 
 (* ------------------------------------------------------------------------------------------ *)
-(* Generation 1 (x/auction): the price update (dutch.go:495-503, dutch_lend.go likewise) is the same
-   arithmetic with the end price stored in the record, so the price clauses and the refutation carry
-   over.  PARTIAL: generation 1 is modelled for the price path only (Model/DutchV1.v); its bid path
-   (both dust rules, the target-reached recomputation) and close are not modelled and generation 1
-   is not driven by the harness (the price functions are unexported). *)
-From Comdex Require Import Model.DutchV1 Proofs.DutchProofsV1.
+(* Generation 1 (x/auction): vault auctions (dutch.go) and lend auctions (dutch_lend.go).  A bid names an
+   amount of COLLATERAL; the bidder pays its posted value in debt, clipped to the debt still to collect
+   (then the collateral slice is recomputed from that debt).  Model/DutchV1.v follows the code statement
+   by statement; TestC10V1 / TestC10V1Lend drive the real keepers.  Not modelled: the ESM branch of
+   RestartDutchAuctions, the book-keeping of UnLiquidateLockedBorrows after a lend close. *)
+From Comdex Require Import Model.DutchV1 Proofs.DutchProofsV1 Proofs.DutchProofsV1Bid.
 
-Theorem c10_v1_price_monotone_partial : forall top cusp dur t1 t2 p1 p2,
+(* price: the update is the same arithmetic as generation 2 with the end price stored in the record *)
+Theorem c10_v1_price_monotone : forall top cusp dur t1 t2 p1 p2,
   fits_dec (dmul top cusp) = true ->
   0 <= v1_end_price top cusp < top -> 0 <= dur -> 0 <= t1 -> t1 <= t2 -> t2 <= dur ->
   v1_posted_price top (v1_end_price top cusp) dur t1 = Some p1 ->
   v1_posted_price top (v1_end_price top cusp) dur t2 = Some p2 ->
   p2 <= p1 /\ p1 <= top /\ 0 <= p2.
 Proof. exact v1_posted_monotone. Qed.
-Print Assumptions c10_v1_price_monotone_partial.
+Print Assumptions c10_v1_price_monotone.
 
+(* what a block tick posts: strictly after EndTime a restart at the new start price (with the end price
+   = start x cusp), otherwise [v1_posted_price] of the elapsed whole seconds *)
+Theorem c10_v1_tick_posts : forall cf now pin pout a a',
+  v1_tick_raw cf now pin pout a = Ok a' ->
+  (now > t_end a /\ p_out a' = p_top a' /\ p_end a' = v1_end_price (p_top a') (v_cusp cf) /\
+   t_start a' = now /\ t_end a' = now + v_dur cf) \/
+  (now <= t_end a /\ p_top a' = p_top a /\ p_end a' = p_end a /\ t_start a' = t_start a /\ t_end a' = t_end a /\
+   v1_posted_price (p_top a) (p_end a) (v_dur cf) (now - t_start a) = Some (p_out a')).
+Proof. exact v1_tick_price. Qed.
+Print Assumptions c10_v1_tick_posts.
+
+(* the end-price clause fails exactly as in generation 2 (C10-F1, same truncation) *)
 Theorem c10_v1_end_price_refuted : exists top cusp dur p,
   0 <= v1_end_price top cusp < top /\ 0 < dur /\
   v1_posted_price top (v1_end_price top cusp) dur dur = Some p /\ p < v1_end_price top cusp.
 Proof. exact v1_end_price_refuted. Qed.
 Print Assumptions c10_v1_end_price_refuted.
+
+(* Totals, by induction over ANY history of MsgPlaceDutchBid / MsgPlaceDutchLendBid (any bidder, any
+   amount incl. 0 / negative / over-sized / wrong denom) and block ticks (any time, any oracle values),
+   each atomic; no assumption on prices.  g_paid = debt paid by bidders, g_recv = collateral taken off
+   the auction, g_bonus = collateral paid on top of it (lend: the liquidation bonus), g_top = shortfall
+   covered by the collector (vault) / the lend reserve (lend) when the collateral is sold out. *)
+Theorem c10_v1_totals : forall cf coll ao pen fees now pin pout a0 s ops,
+  (v_lend cf = true -> 0 <= v_bonus cf) -> (v_lend cf = false -> v_bonus cf = 0) ->
+  0 <= coll -> 0 <= ao -> 0 <= pen -> 0 <= fees ->
+  v1_activate cf coll ao pen fees now pin pout = Ok a0 ->
+  let f := v1_run cf ao (mkV1L s (Some a0) 0 0 0 0) ops in
+  0 <= g_paid f <= i_target a0 /\ 0 <= g_recv f <= coll /\
+  0 <= g_bonus f /\ g_bonus f * P18 <= g_recv f * v_bonus cf /\
+  match g_a f with
+  | Some a => g_paid f = i_cur a /\ g_recv f + o_cur a = coll /\ 0 <= o_cur a /\ i_cur a <= i_target a /\
+              i_target a = i_target a0 /\ g_top f = 0
+  | None => g_paid f + g_top f = i_target a0 /\ 0 <= g_top f
+  end.
+Proof. exact v1_totals. Qed.
+Print Assumptions c10_v1_totals.
+
+(* one bid: amounts *)
+Theorem c10_v1_bid_amounts : forall cf ao a s who bid wd s' a' r,
+  v1good a -> (v_lend cf = true -> 0 <= v_bonus cf) -> (v_lend cf = false -> v_bonus cf = 0) ->
+  v1_place_bid cf ao a s who bid wd = Ok (s', a', r) ->
+  let tab := i_target a - i_cur a in
+  0 <= w_paid r <= tab /\ 0 <= w_slice r <= o_cur a /\
+  w_recv r = w_slice r + v1_bonus_of cf (w_slice r) /\ 0 <= v1_bonus_of cf (w_slice r) /\
+  v1_bonus_of cf (w_slice r) * P18 <= w_slice r * v_bonus cf /\
+  (w_reached r = false -> w_slice r = bid /\ w_paid r = conv (v_dout cf) (p_out a) bid (v_din cf) (p_in a) /\ 0 < w_paid r) /\
+  (w_reached r = true -> w_paid r = tab /\ w_slice r = conv (v_din cf) (p_in a) tab (v_dout cf) (p_out a)) /\
+  match a' with
+  | Some b => w_closed r = false /\ w_topup r = 0 /\
+              o_cur b = o_cur a - w_slice r /\ i_cur b = i_cur a + w_paid r /\ i_cur b < i_target a /\ 0 < o_cur b /\
+              i_target b = i_target a /\ p_out b = p_out a /\ p_in b = p_in a /\ p_top b = p_top a /\ p_end b = p_end a /\
+              t_start b = t_start a /\ t_end b = t_end a
+  | None => w_closed r = true /\ 0 <= w_topup r /\ i_cur a + w_paid r + w_topup r = i_target a /\
+            (0 < w_topup r -> w_slice r = o_cur a)
+  end.
+Proof. exact v1_bid_amounts. Qed.
+Print Assumptions c10_v1_bid_amounts.
+
+(* each bid exchanges at the posted price, as the extracted predicate the runner evaluates on every observed
+   bid: the bidder pays more than the posted value of the slice minus three debt units (when the bid fills
+   the target: the slice is at most one collateral unit more than the payment buys); lend: the bonus on top
+   is at most the advertised share of the slice *)
+Theorem c10_v1_bid_price : forall cf ao a s who bid wd s' a' r,
+  v1good a -> (v_lend cf = true -> 0 <= v_bonus cf) -> (v_lend cf = false -> v_bonus cf = 0) ->
+  0 < v_dout cf <= P18 -> 0 < v_din cf <= P18 -> v_dout cf <= p_out a -> v_din cf <= p_in a ->
+  v1_place_bid cf ao a s who bid wd = Ok (s', a', r) ->
+  holds_C10_v1_bid (v_dout cf) (v_din cf) (p_out a) (p_in a) (v_bonus cf) (o_cur a) (i_target a - i_cur a)
+                   (w_paid r) (w_recv r) (w_slice r) = true.
+Proof. exact v1_bid_price_holds. Qed.
+Print Assumptions c10_v1_bid_price.
+
+(* close completeness, vault auctions: the closing bid (target reached, or collateral sold out with the
+   collector paying the rest) takes out of the auction account exactly this auction's remaining collateral
+   and the debt it had collected; the principal (LockedVault.AmountOut) is burned, the rest of the target
+   (penalty + accumulated fees) goes to the collector and into its fee book, unsold collateral to the owner *)
+Theorem c10_v1_close_complete_vault : forall cf ao a s who bid wd s' r,
+  v_lend cf = false -> v_bonus cf = 0 -> v1good a -> 0 <= ao <= i_target a -> 0 <= who ->
+  v1_place_bid cf ao a s who bid wd = Ok (s', None, r) ->
+  i_cur a + w_paid r + w_topup r = i_target a /\
+  v_led s' AUC_C = v_led s AUC_C - o_cur a /\
+  v_led s' AUC_D = v_led s AUC_D - i_cur a /\
+  v_led s' OWN_C + v_led s' (BID_C who) = v_led s OWN_C + v_led s (BID_C who) + o_cur a /\
+  v_led s' BRN_D = v_led s BRN_D + ao /\
+  v_led s' COL_D = v_led s COL_D + (i_target a - ao) - w_topup r /\
+  v_netfee s' = Some (match v_netfee s with Some x => x | None => 0 end + (i_target a - ao) - w_topup r).
+Proof. exact v1_close_complete_vault. Qed.
+Print Assumptions c10_v1_close_complete_vault.
+
+(* close completeness, lend auctions: every bid's payment goes straight on to the lending pool; at the close
+   the pool has received the whole target (the lend reserve covering a shortfall it can afford), the
+   remaining collateral went to bidder and owner.  The bonus is paid out of the auction account ON TOP of
+   the auction's own collateral (it was transferred in by the liquidation module). *)
+Theorem c10_v1_close_complete_lend : forall cf ao a s who bid wd s' r,
+  v_lend cf = true -> 0 <= v_bonus cf -> v1good a -> 0 <= who ->
+  v1_place_bid cf ao a s who bid wd = Ok (s', None, r) ->
+  i_cur a + w_paid r + w_topup r = i_target a /\
+  v_led s' AUC_C = v_led s AUC_C - o_cur a - (w_recv r - w_slice r) /\
+  v_led s' AUC_D = v_led s AUC_D /\
+  v_led s' OWN_C + v_led s' (BID_C who) = v_led s OWN_C + v_led s (BID_C who) + o_cur a + (w_recv r - w_slice r) /\
+  v_led s' POOL_D = v_led s POOL_D + w_paid r + w_topup r /\
+  v_led s' LEND_D = v_led s LEND_D - w_topup r /\ (0 < w_topup r -> w_topup r <= v_led s LEND_D).
+Proof. exact v1_close_complete_lend. Qed.
+Print Assumptions c10_v1_close_complete_lend.
+
+(* Custody over the whole life of one generation-1 auction, by induction over any history: beyond the live
+   auction's remaining collateral the auction account holds what it held at the start minus the seized lot
+   minus the bonus paid out; beyond what a live vault auction has collected, its debt balance is unchanged
+   (vault: held until the close, then burned / sent to the collector; lend: passed on to the pool per bid) *)
+Theorem c10_v1_custody : forall cf coll ao pen fees now pin pout a0 s ops,
+  (v_lend cf = true -> 0 <= v_bonus cf) -> (v_lend cf = false -> v_bonus cf = 0) ->
+  0 <= coll -> 0 <= ao -> 0 <= pen -> 0 <= fees -> Forall v1op_ok ops ->
+  v1_activate cf coll ao pen fees now pin pout = Ok a0 ->
+  let f := v1_run cf ao (mkV1L s (Some a0) 0 0 0 0) ops in
+  v_led (g_s f) AUC_C - live_o f = (v_led s AUC_C - coll) - g_bonus f /\
+  v_led (g_s f) AUC_D - live_i cf f = v_led s AUC_D.
+Proof. exact v1_custody. Qed.
+Print Assumptions c10_v1_custody.
+
+(* "no unaccounted remainder stays in auction custody" is FALSE for generation-1 LEND auctions (known finding
+   C10-F4): x/liquidation moves the lot PLUS the whole advertised bonus into the auction account; the bonus is
+   paid per bid as trunc(slice x bonus); the bonus share of collateral that is not sold (target reached early,
+   the rest goes back to the borrower) and the truncation remainders are never paid out or returned.
+   Witness = harness TestC10V1Lend case 5 (seed 1) on the real keepers: lot 213393065, bonus 10 %, 234732372
+   moved in; one bid fills the target with 142262043 of the lot (+ 14226204 bonus), 71131022 go back to the
+   borrower, 7113103 stay in the module account with no auction left. *)
+Theorem c10_v1_lend_custody_refuted :
+  exists s' r, v1_place_bid l_cf 0 l_au (mkV1S l_led None) 0 213393065 false = Ok (s', None, r) /\
+    w_paid r = 211707829 /\ w_slice r = 142262043 /\ w_recv r = 156488247 /\
+    v_led s' OWN_C = 71131022 /\ v_led s' AUC_C = 7113103 /\
+    kf_C10_4 true 234732372 213393065 (w_recv r - w_slice r) = true /\
+    holds_C10_v1_custody (v_led s' AUC_C) (v_led s' AUC_D) = false.
+Proof. exact lend_bonus_stranded. Qed.
+Print Assumptions c10_v1_lend_custody_refuted.
+
+(* outside that class the custody clause holds at every point of every history: [funded] is what was moved
+   into the (otherwise empty) auction account for this auction - for vault auctions exactly the lot.  (Bank
+   balances cannot be overdrawn, hence the residual is never negative: taken as a hypothesis here.) *)
+Theorem c10_v1_custody_partial : forall cf coll ao pen fees now pin pout a0 s ops,
+  (v_lend cf = true -> 0 <= v_bonus cf) -> (v_lend cf = false -> v_bonus cf = 0) ->
+  0 <= coll -> 0 <= ao -> 0 <= pen -> 0 <= fees -> Forall v1op_ok ops ->
+  v1_activate cf coll ao pen fees now pin pout = Ok a0 ->
+  (v_lend cf = false -> v_led s AUC_C = coll) -> v_led s AUC_D = 0 ->
+  let f := v1_run cf ao (mkV1L s (Some a0) 0 0 0 0) ops in
+  kf_C10_4 (v_lend cf) (v_led s AUC_C) coll (g_bonus f) = false ->
+  0 <= v_led (g_s f) AUC_C - live_o f ->
+  holds_C10_v1_custody (v_led (g_s f) AUC_C - live_o f) (v_led (g_s f) AUC_D - live_i cf f) = true.
+Proof.
+  intros cf coll ao pen fees now pin pout a0 s ops Hb Hb0 Hc Ha Hp Hf Hops Ea Hv Hd f Hkf Hnn.
+  destruct (v1_custody cf coll ao pen fees now pin pout a0 s ops Hb Hb0 Hc Ha Hp Hf Hops Ea) as (H1 & H2).
+  fold f in H1, H2. unfold holds_C10_v1_custody, kf_C10_4 in *.
+  assert (Hcase : v_lend cf = true \/ v_lend cf = false) by (destruct (v_lend cf); auto).
+  destruct Hcase as [Hl|Hl].
+  - rewrite Hl in Hkf. cbn [andb] in Hkf. apply Z.ltb_ge in Hkf.
+    apply andb_true_iff. split; apply Z.eqb_eq; lia.
+  - specialize (Hv Hl).
+    assert (g_bonus f = 0).
+    { pose proof (v1_totals cf coll ao pen fees now pin pout a0 s ops Hb Hb0 Hc Ha Hp Hf Ea) as (_ & _ & B0 & B1 & _).
+      fold f in B0, B1. rewrite (Hb0 Hl) in B1. pose proof P18_pos. nia. }
+    apply andb_true_iff. split; apply Z.eqb_eq; lia.
+Qed.
+Print Assumptions c10_v1_custody_partial.
+
+(* non-vacuity: a vault auction (1000000 collateral at 1.0, debt 600000 + 12 % penalty, start price 1.2,
+   end factor 0.6, 300 s) takes a partial bid, a tick and a bid that fills the target *)
+Definition v1ex_cf : v1cfg := mkV1Cfg (12 * P18 / 10) (6 * P18 / 10) 300 100000 1000000 1000000 false 0.
+Definition v1ex_led : ledger := fun k => if k =? 0 then 1000000 else if k =? 11 then 5000000 else if k =? 13 then 5000000 else 0.
+Example c10_v1_nonvacuous :
+  exists a0, v1_activate v1ex_cf 1000000 600000 (12 * P18 / 100) 0 0 (Some 1000000) (Some 1000000) = Ok a0 /\
+  i_target a0 = 672000 /\
+  let f := v1_run v1ex_cf 600000 (mkV1L (mkV1S v1ex_led None) (Some a0) 0 0 0 0)
+                  [V1Bid 0 200000 false; V1Tick 100 (Some 1000000) (Some 1000000); V1Bid 1 800000 false] in
+  g_a f = None /\ g_paid f = 672000 /\ g_recv f = 615384 /\ g_top f = 0 /\
+  v_led (g_s f) AUC_C = 0 /\ v_led (g_s f) AUC_D = 0 /\ v_led (g_s f) BRN_D = 600000 /\
+  v_led (g_s f) COL_D = 72000 /\ v_netfee (g_s f) = Some 72000 /\ v_led (g_s f) OWN_C = 384616.
+Proof. eexists. split; [vm_compute; reflexivity|]. vm_compute. repeat split; reflexivity. Qed.
